@@ -152,6 +152,8 @@ def step (s : VSt) (toks : List String) : String × VSt :=
     let sz := szOf c
     if s.halted then ("halted ret=-", s) else
     let skip : String × VSt := ("skip ret=-", { s with mem := { s.mem with fuel := none, ev := {} } })
+    -- a count that is enormous AND representable (no capacity error): neither side materialises millions of elements
+    let hugeOk (k : Nat) : Bool := k > 1000000 && sz + k ≤ cfg.ops.kMax
     match op, rest with
     | "push", [v] => runOp s (unit (pushBackCopy cfg c (.lit (nat v))))
     | "pushm", [v] => runOp s (unit (pushBackMove cfg c (nat v)))
@@ -162,7 +164,7 @@ def step (s : VSt) (toks : List String) : String × VSt :=
     | "insm", [p, v] => runOp s (idx (insertOne cfg c (nat p % (sz+1)) (.move (nat v))))
     | "inss", [p, i] => if sz == 0 then skip else
         runOp s (idx do insertOne cfg c (nat p % (sz+1)) (.copy (← selfRef cfg c (nat i % sz))))
-    | "insn", [p, k, v] => runOp s (idx (insertCount cfg c (nat p % (sz+1)) (cnt k) (.lit (nat v))))
+    | "insn", [p, k, v] => if hugeOk (cnt k) then skip else runOp s (idx (insertCount cfg c (nat p % (sz+1)) (cnt k) (.lit (nat v))))
     | "insns", [p, k, i] => if sz == 0 then skip else
         runOp s (idx do insertCount cfg c (nat p % (sz+1)) (cnt k) (← selfRef cfg c (nat i % sz)))
     | "insr", [p, vs] => runOp s (idx (insertRange cfg c (nat p % (sz+1)) (natList vs)))
@@ -194,8 +196,8 @@ def step (s : VSt) (toks : List String) : String × VSt :=
     | "rsv", [k] => runOp s (unit (reserve cfg c (cnt k)))
     | "shr", [] => runOp s (unit (shrinkToFit cfg c))
     | "apr", [vs] => runOp s (unit (appendRange cfg c (natList vs)))
-    | "apn", [k] => runOp s (unit (appendN cfg c (cnt k)))
-    | "apv", [k, v] => runOp s (unit (appendFill cfg c (cnt k) (.lit (nat v))))
+    | "apn", [k] => if hugeOk (cnt k) then skip else runOp s (unit (appendN cfg c (cnt k)))
+    | "apv", [k, v] => if hugeOk (cnt k) then skip else runOp s (unit (appendFill cfg c (cnt k) (.lit (nat v))))
     | "apvs", [k, i] => if sz == 0 then skip else runOp s (unit do appendFill cfg c (cnt k) (← selfRef cfg c (nat i % sz)))
     | "cpy", [d] => runOp s (unit (copyAssign cfg c (nat d)))
     | "mov", [d] => runOp s (unit (moveAssign cfg c (nat d)))
